@@ -1,25 +1,19 @@
 From Coq Require Import List NArith QArith Reals Lra Psatz Bool Lia.
 From D3 Require Import Base.Ops Base.Vec Base.RVec Spec.Convex Spec.ConvexHull Model.SimplexOrig
-  Proofs.SimplexTriangle Proofs.SimplexOrig.
+  Proofs.SimplexTriangle Proofs.SimplexOrig Proofs.SimplexOrigCand.
 Import ListNotations.
 Local Open Scope R_scope.
 
-(** * The original solver's backup procedure on three affinely independent points returns the
-      minimum-norm point of the triangle -- ALL such real inputs (Johnson's theorem for the face).
+(** * The original solver's backup procedure on THREE points returns a minimum-norm point of the
+      triangle -- ALL real inputs (affinely independent, collinear, duplicates).
 
     The code's cofactors are exactly the quantities of the triangle proof of the Jolt solver
     (d[1,2] = d1, d[2,4] = d2, d[2,6] = vc, d[1,6] = vb, d[0,6] = va, d[2,5], d[1,5] = the two
-    BC parameters), so [tri_all_pos] (Proofs/SimplexTriangle.v) says that either the face candidate
-    is eligible or one of the six vertex/edge regions contains the origin's projection; in each
-    case a candidate the procedure tries satisfies the variational inequality, and the procedure
-    ends no worse than every candidate it tries ([try_cand_mono], [try_vertex_mono]).
-    PARTIAL with respect to all inputs: affinely dependent triples (collinear points, duplicates)
-    are not covered here; they are covered on the lattice by Proofs/SimplexLattice.v. *)
+    BC parameters), so [tri_all_pos0] (Proofs/SimplexTriangle.v) says that either the face
+    candidate is eligible or one of the six vertex/edge regions contains the origin's
+    projection; in each case a candidate the procedure tries satisfies the variational
+    inequality, and the procedure ends no worse than every candidate it tries. *)
 
-Lemma dec_and (P Q : Prop) : {P} + {~ P} -> {Q} + {~ Q} -> {P /\ Q} + {~ (P /\ Q)}.
-Proof. intros [p|p] [q|q]; [left; auto|right; tauto|right; tauto|right; tauto]. Qed.
-Lemma arm_dec (P : Prop) : {P} + {~ P} -> P \/ ~ P.
-Proof. intros [p|p]; auto. Qed.
 
 (** a candidate that satisfies the variational inequality bounds every hull point from below *)
 Lemma kkt_lower (a b c p : V3R) :
@@ -33,15 +27,17 @@ Proof.
   pose proof (norm_sq p). pose proof (norm_sq x). pose proof (norm_nonneg p). pose proof (norm_nonneg x). nra.
 Qed.
 
-Theorem backup_face_optimal_partial (a b c : V3R) :
-  let g11 := dot (vsub b a) (vsub b a) in
-  let g12 := dot (vsub b a) (vsub c a) in
-  let g22 := dot (vsub c a) (vsub c a) in
-  0 < g11 * g22 - g12 * g12 ->
+Theorem backup_face_optimal (a b c : V3R) :
   let r := @backup_procedure_face R ROps [a; b; c] in
   is_min_norm [a; b; c] (s_v (b_sol r)).
 Proof.
-  intros g11 g12 g22 HD r.
+  intros r.
+  set (g11 := dot (vsub b a) (vsub b a)). set (g12 := dot (vsub b a) (vsub c a)).
+  set (g22 := dot (vsub c a) (vsub c a)).
+  assert (HD : 0 <= g11 * g22 - g12 * g12).
+  { pose proof (cauchy_schwarz_sq (vsub b a) (vsub c a)) as H. fold g11 g12 g22 in H. lra. }
+  assert (Hg11n : 0 <= g11) by apply dot_self_nonneg.
+  assert (Hg22n : 0 <= g22) by apply dot_self_nonneg.
   (* the result is well formed *)
   assert (Hbp : @backup_procedure R ROps [a; b; c] = Some r) by reflexivity.
   destruct (backup_in_hull _ _ Hbp) as [_ Hin].
@@ -56,11 +52,8 @@ Proof.
   assert (G11 : g11 = t11 - 2 * t10 + t00) by (unfold g11, t11, t10, t00; vsimp; ring).
   assert (G12 : g12 = t21 - t10 - t20 + t00) by (unfold g12, t21, t10, t20, t00; vsimp; ring).
   assert (G22 : g22 = t22 - 2 * t20 + t00) by (unfold g22, t22, t20, t00; vsimp; ring).
-  assert (Hg11 : 0 < g11).
-  { pose proof (dot_self_nonneg (vsub b a)) as H. fold g11 in H. destruct (Req_dec g11 0) as [E|E]; [|lra]. rewrite E in HD. nra. }
-  assert (Hg22 : 0 < g22).
-  { pose proof (dot_self_nonneg (vsub c a)) as H. fold g22 in H. destruct (Req_dec g22 0) as [E|E]; [|lra]. rewrite E in HD. nra. }
-  assert (Hgbc : 0 < g11 - 2 * g12 + g22) by (apply g_bc_pos; auto).
+  assert (Gbc : g11 - 2 * g12 + g22 = dot (vsub c b) (vsub c b)) by (unfold g11, g12, g22; vsimp; ring).
+  assert (Hgbcn : 0 <= g11 - 2 * g12 + g22) by (rewrite Gbc; apply dot_self_nonneg).
   assert (Eab : dot a b = t10) by (unfold t10; apply dot_comm).
   assert (Eac : dot a c = t20) by (unfold t20; apply dot_comm).
   assert (Ebc : dot b c = t21) by (unfold t21; apply dot_comm).
@@ -114,8 +107,8 @@ Proof.
     specialize (K ltac:(unfold d2 in h1; rewrite G22 in h1; lra)
                   ltac:(unfold d1, d2 in h2; rewrite G12, G22 in h2; lra) ltac:(lra) x Hx). lra. }
   (* segment 01 *)
-  assert (KAB : avc d1 d2 g11 g12 <= 0 -> 0 < d1 -> d1 - g11 < 0 -> forall x, conv_hull [a; b; c] x -> st_d2 st6 <= dot x x).
-  { intros hv h1 h3 x Hx.
+  assert (KAB : 0 < g11 -> avc d1 d2 g11 g12 <= 0 -> 0 < d1 -> d1 - g11 < 0 -> forall x, conv_hull [a; b; c] x -> st_d2 st6 <= dot x x).
+  { intros Hg11 hv h1 h3 x Hx.
     assert (He : e1 = true).
     { unfold e1. apply negb_true_iff, orb_false_iff. split; apply Rleb_false; unfold d02, d12; unfold d1 in *; rewrite G11 in h3; lra. }
     specialize (C1 He). unfold c1, from_line_segment in C1. cbn [s_d2 add sub mul div one ROps] in C1.
@@ -143,8 +136,8 @@ Proof.
       apply conv_hull_3; lra. }
     specialize (K Hvin ltac:(lra) ltac:(lra) ltac:(lra) x Hx). lra. }
   (* segment 02 *)
-  assert (KAC : avb d1 d2 g12 g22 <= 0 -> 0 < d2 -> d2 - g22 < 0 -> forall x, conv_hull [a; b; c] x -> st_d2 st6 <= dot x x).
-  { intros hv h1 h3 x Hx.
+  assert (KAC : 0 < g22 -> avb d1 d2 g12 g22 <= 0 -> 0 < d2 -> d2 - g22 < 0 -> forall x, conv_hull [a; b; c] x -> st_d2 st6 <= dot x x).
+  { intros Hg22 hv h1 h3 x Hx.
     assert (He : e2 = true).
     { unfold e2. apply negb_true_iff, orb_false_iff. split; apply Rleb_false; unfold d04, d24; unfold d2 in *; rewrite G22 in h3; lra. }
     specialize (C2 He). unfold c2, from_line_segment in C2. cbn [s_d2 add sub mul div one ROps] in C2.
@@ -183,7 +176,7 @@ Proof.
     specialize (C6 He). unfold c6, from_line_segment in C6. cbn [s_d2 add sub mul div one ROps] in C6.
     unfold pt in C6. cbn [nth] in C6. rewrite E25, E15 in C6.
     set (gb := d43 + d56) in *.
-    assert (Hgb : 0 < gb) by lra.
+    assert (Hgb : 0 < gb) by (unfold gb; lra).
     set (b0 := d43 / gb) in *. set (v := vadd (vscale b0 c) (vscale (1 - b0) b)) in *.
     assert (Hb0 : 0 <= b0 <= 1).
     { unfold b0. split; [apply Rmult_le_pos; [lra|left; apply Rinv_0_lt_compat; lra]|].
@@ -210,6 +203,7 @@ Proof.
   assert (KF : 0 < ava d1 d2 g11 g12 g22 -> 0 < avb d1 d2 g12 g22 -> 0 < avc d1 d2 g11 g12 ->
                forall x, conv_hull [a; b; c] x -> st_d2 st6 <= dot x x).
   { intros ha hb hc x Hx.
+    assert (HDp : 0 < g11 * g22 - g12 * g12) by (unfold ava, aD in ha; lra).
     assert (He : e3 = true).
     { unfold e3. apply negb_true_iff. rewrite !orb_false_iff, E06, E16, E26. repeat split; apply Rleb_false; lra. }
     specialize (C3 He). unfold c3, from_face in C3. cbn [s_d2 add sub mul div one ROps] in C3.
@@ -229,10 +223,10 @@ Proof.
     assert (Hvc : dot v c = b0 * t20 + b1 * t21 + b2 * t22) by (unfold v; rewrite !dot_add_l, !dot_scale_l, Eac, Ebc; reflexivity).
     assert (Hab : dot v a = dot v b).
     { rewrite Hva, Hvb, Hb2. unfold b0, b1, va, vb, vc, ava, avb, avc, aD, D, d1, d2. rewrite G11, G12, G22. field.
-      unfold D in HD. rewrite G11, G12, G22 in HD. lra. }
+      unfold D in HDp. rewrite G11, G12, G22 in HDp. lra. }
     assert (Hac : dot v a = dot v c).
     { rewrite Hva, Hvc, Hb2. unfold b0, b1, va, vb, vc, ava, avb, avc, aD, D, d1, d2. rewrite G11, G12, G22. field.
-      unfold D in HD. rewrite G11, G12, G22 in HD. lra. }
+      unfold D in HDp. rewrite G11, G12, G22 in HDp. lra. }
     assert (Hvv : dot v v = dot v a).
     { unfold v at 2. rewrite !dot_add_r, !dot_scale_r, <- Hab, <- Hac. unfold b2. ring. }
     pose proof (kkt_lower a b c v) as K.
@@ -241,6 +235,39 @@ Proof.
   (* case analysis *)
   assert (Eva : ava d1 d2 g11 g12 g22 = (d1 - g11) * (d2 - g22) - (d1 - g12) * (d2 - g12))
     by (unfold ava, avb, avc, aD; ring).
+  destruct (Req_dec g11 0) as [Z11|N11].
+  { (* a = b *)
+    assert (Hba : vsub b a = vzero) by (apply dot_self_zero; exact Z11).
+    assert (E10 : t10 = t00).
+    { unfold t10, t00. replace b with (vadd a (vsub b a)) by (vsimp; f_equal; ring). rewrite Hba. vsimp. ring. }
+    assert (E12 : g12 = 0) by (unfold g12; rewrite Hba; vsimp; ring).
+    assert (Ed1 : d1 = 0) by (unfold d1; lra).
+    destruct (Rle_dec d2 0) as [q|q]; [apply KA; lra|].
+    destruct (Rle_dec 0 (d2 - g22)) as [q6|q6]; [apply KC; lra|].
+    apply KAC; try lra. unfold avb. rewrite Ed1, E12. lra. }
+  destruct (Req_dec g22 0) as [Z22|N22].
+  { (* a = c *)
+    assert (Hca : vsub c a = vzero) by (apply dot_self_zero; exact Z22).
+    assert (E20 : t20 = t00).
+    { unfold t20, t00. replace c with (vadd a (vsub c a)) by (vsimp; f_equal; ring). rewrite Hca. vsimp. ring. }
+    assert (E12 : g12 = 0) by (unfold g12; rewrite Hca; vsimp; ring).
+    assert (Ed2 : d2 = 0) by (unfold d2; lra).
+    destruct (Rle_dec d1 0) as [q|q]; [apply KA; lra|].
+    destruct (Rle_dec 0 (d1 - g11)) as [q3|q3]; [apply KB; lra|].
+    apply KAB; try lra. unfold avc. rewrite Ed2, E12. lra. }
+  destruct (Req_dec (g11 - 2 * g12 + g22) 0) as [Zbc|Nbc].
+  { (* b = c *)
+    assert (Hcb : vsub c b = vzero) by (apply dot_self_zero; rewrite <- Gbc; exact Zbc).
+    assert (Ecb : c = b) by (replace c with (vadd b (vsub c b)) by (vsimp; f_equal; ring); rewrite Hcb; vsimp; f_equal; ring).
+    assert (E20 : t20 = t10) by (unfold t20, t10; rewrite Ecb; reflexivity).
+    assert (Eg : g12 = g11 /\ g22 = g11) by (unfold g12, g22, g11; rewrite Ecb; split; reflexivity).
+    destruct Eg as [Eg12 Eg22].
+    assert (Ed : d2 = d1) by (unfold d2, d1; lra).
+    destruct (Rle_dec d1 0) as [q|q]; [apply KA; lra|].
+    destruct (Rle_dec 0 (d1 - g11)) as [q3|q3]; [apply KB; lra|].
+    apply KAB; try lra. unfold avc. rewrite Ed, Eg12. lra. }
+  assert (Hg11 : 0 < g11) by lra. assert (Hg22 : 0 < g22) by lra. assert (Hgbc : 0 < g11 - 2 * g12 + g22) by lra.
+  assert (HDa : 0 <= aD g11 g12 g22) by (unfold aD; lra).
   assert (Harm : (0 < ava d1 d2 g11 g12 g22 /\ 0 < avb d1 d2 g12 g22 /\ 0 < avc d1 d2 g11 g12) \/
                  armA d1 d2 \/ armB d1 d2 g11 g12 \/ armAB d1 d2 g11 g12 \/ armC d1 d2 g12 g22 \/
                  armAC d1 d2 g12 g22 \/ armBC d1 d2 g11 g12 g22).
@@ -250,7 +277,7 @@ Proof.
     destruct (arm_dec (armC d1 d2 g12 g22)) as [h|hC]; [unfold armC; repeat apply dec_and; apply Rle_dec|auto 6|].
     destruct (arm_dec (armAC d1 d2 g12 g22)) as [h|hAC]; [unfold armAC; repeat apply dec_and; apply Rle_dec|auto 8|].
     destruct (arm_dec (armBC d1 d2 g11 g12 g22)) as [h|hBC]; [unfold armBC; repeat apply dec_and; apply Rle_dec|auto 8|].
-    left. apply tri_all_pos; auto. unfold no_arm. auto 8. }
+    left. apply tri_all_pos0; auto. unfold no_arm. auto 8. }
   destruct Harm as [(Pa & Pb & Pc)|[[h1 h2]|[[h1 h2]|[(hv & h1 & h3)|[[h1 h2]|[(hv & h1 & h3)|(hv & h1 & h3)]]]]]].
   - apply KF; auto.
   - apply KA; auto.
@@ -259,7 +286,7 @@ Proof.
     destruct (Req_dec d1 0) as [z|nz].
     { apply KA; [lra|]. unfold avc in hv. rewrite z in hv. nra. }
     destruct (Req_dec (d1 - g11) 0) as [z3|nz3].
-    { apply KB; [lra|]. unfold avc in hv. assert (d1 = g11) by lra. subst d1. clear z3. nra. }
+    { apply KB; [lra|]. unfold avc in hv. assert (E : d1 = g11) by lra. rewrite E in hv. rewrite E. nra. }
     apply KAB; auto; lra.
   - apply KC; auto.
   - (* AC *)
